@@ -17,5 +17,6 @@ func main() {
 	dbreplay.Main(rep, args, "C03", []dbreplay.Stage{
 		{Name: "wal-3pg-4ops-exhaustive", Cfg: "MC_DBFile_wal.cfg", Timeout: 15 * time.Minute, MaxKeep: core.Pick(args, 1500, 12000)},
 		{Name: "wal-beyond-3pg-4ops-exhaustive", Cfg: "MC_DBFile_wal_beyond.cfg", Timeout: 15 * time.Minute, MaxKeep: core.Pick(args, 800, 8000)},
+		{Name: "deep-simulation-4pg-8ops", Cfg: "MC_DBFile_sim.cfg", Simulate: true, Num: core.Pick(args, 40, 400), Depth: 200, Timeout: 10 * time.Minute, MaxKeep: core.Pick(args, 150, 3000)},
 	})
 }
